@@ -18,7 +18,9 @@ OWN_CLS = {"P11_class", "P11_uline"}
 PLAN = {
     "quick": {
         # (name, model kwargs, print 1 history in N)
-        "svc_models": [("q1", dict(names="Names2", words="Words5", max_rl=1, pre=True, keep_old=False), 2)],
+        "svc_models": [("q1", dict(names="Names2", words="Words5", max_rl=1, pre=True, keep_old=False), 2),
+                       # two reloads in a row around one service (mistyped, then corrected, while a client waits for it ...)
+                       ("q2r", dict(names="Names1", words="Words3", max_rl=2, pre=True, keep_old=False), 1)],
         "svc_workers": 10,
         "cls_models": [("MCReloadClass_q.cfg", 1)],
         "cls_chains": 480, "cls_random": 1, "cls_parts": 6,
@@ -125,6 +127,51 @@ def wide_jobs(rng, count):
             ev.append({"ev": {"e": "X", "svc": s_["name"], "tag": "%x_1" % probe_id, "kind": "OKA", "acct": ["ac1", 8],
                               "text": ["t1", 9], "trail": "", "oid": probe_id, "st": 0}, "w": "probe", "n": 1})
         jobs.append({"old": files[0], "events": ev, "files": files, "sanity": False, "omit_empty": (k % 2 == 1), "wide": True})
+    return jobs
+
+
+def _probe_events(files_last, serial, probe_id=6):
+    ev = [{"ev": {"e": "QC"}, "w": "probe", "n": 0},
+          {"ev": {"e": "C", "id": probe_id, "addr": "A%x" % probe_id, "port": 1000 + probe_id}, "w": "probe", "n": 1},
+          {"ev": {"e": "P", "id": probe_id, "shape": "ok", "modes": ["+", "x"], "cred": ["p1", 10], "raw": ["P+xp1", 0]},
+           "w": "probe", "n": 1},
+          {"ev": {"e": "H", "id": probe_id}, "w": "probe", "n": 1}]
+    for s_ in files_last:
+        ev.append({"ev": {"e": "X", "svc": s_["name"], "tag": "%x_%x" % (probe_id, serial), "kind": "OKA", "acct": ["ac1", 8],
+                          "text": ["t1", 9], "trail": "", "oid": probe_id, "st": 0}, "w": "probe", "n": 1})
+    return ev
+
+
+def typo_jobs():
+    """An entry edited twice in a row - mistyped, then corrected (to the old or to another protocol); removed, then put
+    back - while an earlier client is idle / announced / waiting for that very service / done.  TLC's histories are one
+    shortest path per transition, so of the many two-reload chains that lead to the same model state only one is ever
+    printed; these chains are spelled out instead (same job format, judged by the same TLC specifications)."""
+    pre_id = 5
+    pre_ev = [{"e": "C", "id": pre_id, "addr": "A%x" % pre_id, "port": 1000 + pre_id},
+              {"e": "P", "id": pre_id, "shape": "ok", "modes": ["+", "x"], "cred": ["p1", 10], "raw": ["P+xp1", 0]},
+              {"e": "H", "id": pre_id}]
+    jobs = []
+    k = 0
+    for t1 in KNOWN_TYPES:
+        for mid in ("bogus", None, "gopher"):
+            for t2 in KNOWN_TYPES:
+                for stage in (0, 2, 3, 4):
+                    k += 1
+                    if (k * 7 + len(t1) + len(t2)) % 3:       # a third of the grid, spread over all dimensions
+                        continue
+                    other = [{"name": "b.svc", "type": "login"}] if k % 2 else []
+                    mk = lambda t: ([{"name": "a.svc", "type": t}] if t else []) + other
+                    files = [mk(t1), mk(mid), mk(t2)]
+                    ev = [{"ev": e, "w": "pre", "n": 1} for e in pre_ev[:min(stage, 3)]]
+                    if stage == 4:
+                        ev += [{"ev": {"e": "X", "svc": s_["name"], "tag": "%x_1" % pre_id, "kind": "OKA", "acct": ["ac1", 8],
+                                       "text": ["t1", 9], "trail": "", "oid": pre_id, "st": 0}, "w": "pre", "n": 1}
+                               for s_ in files[0]]
+                    ev += [{"ev": {"e": "RL", "svcs": f}, "w": "rl", "n": 0} for f in files[1:]]
+                    ev += _probe_events(files[-1], 2 if stage else 1)
+                    jobs.append({"old": files[0], "events": ev, "files": files, "sanity": False, "omit_empty": (k % 4 == 1),
+                                 "xr_rules": (k % 5 == 0)})
     return jobs
 
 
@@ -353,12 +400,18 @@ def run(ctx):
 
     wjobs = wide_jobs(ctx.rng, plan.get("wide", 4))
     res_w = RR.replay_svc(ctx, wjobs, nproc=min(4, len(wjobs)), tag="rw")
+    tjobs = typo_jobs()
+    res_t = RR.replay_svc(ctx, tjobs, nproc=6, tag="rt")
 
     # 3. TLC judges
     wbad, wviol, wdrift = RR.validate_svc(ctx, res_w, nthreads=4)
     nd_w = report_svc(ctx, wjobs, wbad, wviol, wdrift)
-    ctx.note("full tables: %d histories around a 32-entry service section (%d reloads, %d steps), %d pairs differ"
-             % (len(wjobs), sum(x["reloads"] for x in res_w), sum(x["steps"] for x in res_w), len(wbad)))
+    tbad, tviol, tdrift = RR.validate_svc(ctx, res_t, nthreads=6)
+    nd_w += report_svc(ctx, tjobs, tbad, tviol, tdrift)
+    ctx.note("full tables: %d histories around a 32-entry service section (%d reloads, %d steps), %d pairs differ; entries edited "
+             "twice in a row: %d histories (%d reloads, %d steps), %d pairs differ"
+             % (len(wjobs), sum(x["reloads"] for x in res_w), sum(x["steps"] for x in res_w), len(wbad),
+                len(tjobs), sum(x["reloads"] for x in res_t), sum(x["steps"] for x in res_t), len(tbad)))
     bad, viol, drift = RR.validate_svc(ctx, res_s, nthreads=plan["nproc"])
     cbad, cviol, cdrift, nna = RR.validate_cls(ctx, res_c, nthreads=plan["nproc"])
     nd = report_svc(ctx, jobs, bad, viol, drift)
